@@ -114,3 +114,37 @@ Example c12_conc_nonvacuous :
   (log s, popped s, map (fun p => rev (pout p)) (prods s), rev (cout (con s)), cerr s) =
   ([7; 1]%Z, [7; 1]%Z, [[PrOk; PrFull]; [PrOk]], [CrVal 7; CrVal 1; CrClosed]%Z, 0).
 Proof. vm_compute. reflexivity. Qed.
+
+
+(* ------------------------------------------------------------------------------------------
+   Part 3 - "a sender waiting for space and the receiver waiting for a message are always resumed
+   once the condition they wait for becomes true": the parking protocol of channel.rs
+   (Model/Chan.v: senders parked on an async_event::Event, the receiver on a DiatomicWaker, one
+   shared access per step, any number of senders, any capacity), for the programs GENERATED from the
+   current channel.rs (translator T4) and every interleaving: a parked sender that nobody is going
+   to wake faces a full mailbox, the parked receiver that nobody is going to wake faces an empty one. *)
+Require Import NX.Model.Chan NX.gen.ChanProg NX.Proofs.ChanInv NX.Proofs.ChanProofs NX.Proofs.ChanGen.
+
+Theorem c12_chan_source_is_proved_program : chan_gen = chan_fixed.
+Proof. exact chan_gen_is_proved. Qed.
+Print Assumptions c12_chan_source_is_proved_program.
+
+Theorem c12_waiting_sender_is_resumed :
+  forall c n ls x,
+    let s := c_run chan_gen (c_init c n) ls in
+    senders_settled s -> rpend s = false -> spc_ (S_ s x) = SSleep -> cocc s = ccap s.
+Proof. exact chan_gen_sender_sleeps_only_when_full. Qed.
+Print Assumptions c12_waiting_sender_is_resumed.
+
+Theorem c12_waiting_receiver_is_resumed :
+  forall c n ls,
+    let s := c_run chan_gen (c_init c n) ls in
+    rpc_ s = RSleep -> rwk s = false ->
+    (forall x, will_notify_recv (spc_ (S_ s x)) = false) -> cavail s = 0.
+Proof. exact chan_gen_receiver_sleeps_only_when_empty. Qed.
+Print Assumptions c12_waiting_receiver_is_resumed.
+
+Theorem c12_chan_never_above_capacity :
+  forall c n ls, let s := c_run chan_gen (c_init c n) ls in cavail s <= cocc s /\ cocc s <= ccap s.
+Proof. exact chan_gen_bounded. Qed.
+Print Assumptions c12_chan_never_above_capacity.
